@@ -667,6 +667,138 @@ def image_box_corr(ctx, cases, docs, outs):
                       % par(cases[i]), dict(doc=docs[i], impl_image_abs_bbox=ob, impl_clip_rect=oc, case=str(cases[i])))
 
 
+
+# ---------------------------------------------------------------------------------------------------------------
+# final pass: marker viewport - instance transform and clip rectangle against Gen/LeafMarker.v (marker.rs) and the rule
+# ---------------------------------------------------------------------------------------------------------------
+MK_COQ_PRELUDE = """From Coq Require Import String.
+Local Open Scope Q_scope.
+Definition st0 : vstate := {| st_view_box := {| rx := 0; ry := 0; rw := 600; rh := 600 |}; st_use_size := (None, None); st_dpi := 96; st_fs := 12 |}.
+Definition rect_close (a b : qrect) : bool :=
+  Qclose (1 # 5000) (rx a) (rx b) && Qclose (1 # 5000) (ry a) (ry b) && Qclose (1 # 5000) (rw a) (rw b) && Qclose (1 # 5000) (rh a) (rh b).
+"""
+MK_COQ_CHK_MODEL = """Definition chk (p : mnode * bool * Q * option viewbox * option string * ts * option qrect) : bool :=
+  let '(n, user, sw_, vb, ov, ots, oc) := p in
+  match marker_rect n st0, marker_stroke_scale user (Some sw_) with
+  | Some r, Some k =>
+      ts_close (1 # 5000) (marker_ts {| pt_x := 48; pt_y := 64 |} true ts_identity r k vb) ots &&
+      opt_eqb rect_close (if marker_has_overflow ov then Some (marker_clip_rect r vb) else None) oc
+  | _, _ => false
+  end.
+"""
+# the rule, written without the generated leaves: translate(vertex) . scale(S) . translate(-ref); S from the viewBox mapping onto
+# (markerWidth * k) x (markerHeight * k), k = stroke width unless markerUnits=userSpaceOnUse; clip unless overflow is visible / auto
+MK_COQ_CHK_SPEC = """Definition dimq (l : option SvgSize.length) (dflt base : Q) : Q :=
+  match l with Some x => spec_dim (Some x) (Some base) 0 96 12 | None => dflt end.
+Definition chk (p : mnode * bool * Q * option viewbox * option string * ts * option qrect) : bool :=
+  let '(n, user, sw_, vb, ov, ots, oc) := p in
+  let k := if user then 1 else sw_ in
+  let rx_ := dimq (mk_ref_x n) 0 600 in let ry_ := dimq (mk_ref_y n) 0 600 in
+  let mw := dimq (mk_width n) 3 600 in let mh := dimq (mk_height n) 3 600 in
+  let S := match vb with
+           | Some v => let t := to_transform v {| sw := mw * k; sh := mh * k |} in (t_sx t, t_sy t)
+           | None => (k, k) end in
+  ts_close (1 # 5000) (ts_concat (from_translate 48 64) (ts_concat (from_scale (fst S) (snd S)) (from_translate (- rx_) (- ry_)))) ots &&
+  opt_eqb rect_close
+    (match ov with
+     | Some s => if String.eqb s "visible" || String.eqb s "auto" then None
+                 else Some (match vb with Some v => vb_rect v | None => {| rx := 0; ry := 0; rw := mw; rh := mh |} end)
+     | None => Some (match vb with Some v => vb_rect v | None => {| rx := 0; ry := 0; rw := mw; rh := mh |} end)
+     end) oc.
+"""
+
+
+def marker_viewport_corr(ctx, binp, rng, quick):
+    n = 80 if quick else 800
+    cases, docs = [], []
+    for i in range(n):
+        opt = lambda v, p: v if rng.below(100) < p else None
+        c = dict(user=rng.below(2) == 0, units_attr=rng.below(4) != 0, sw=rng.choice([Fraction(1), Fraction(2), Fraction(3, 2), Fraction(4), Fraction(1, 2)]),
+                 refx=opt((dy(rng, -20, 40), rng.choice(['', '', 'px', '%'])), 80), refy=opt((dy(rng, -20, 40), rng.choice(['', '', 'px'])), 80),
+                 mw=opt((dy(rng, 2, 40), rng.choice(['', '', 'px', 'pt'])), 80), mh=opt((dy(rng, 2, 40), rng.choice(['', '', 'px'])), 80),
+                 vb=None if rng.below(4) == 0 else [dy(rng, -10, 10), dy(rng, -10, 10), dy(rng, 2, 60), dy(rng, 2, 60)],
+                 align=rng.choice(ALIGNS), slice=rng.below(2) == 1, has_par=rng.below(4) != 0,
+                 overflow=rng.choice([None, None, 'hidden', 'scroll', 'visible', 'auto']))
+        if c['refx'] and c['refx'][1] == '%':
+            c['refx'] = (Fraction(int(c['refx'][0]) % 5, 1), '%')       # percent of the 600 px viewport: 0..24 user units
+        if not c['units_attr']:
+            c['user'] = False                                              # markerUnits absent = strokeWidth
+        cases.append(c)
+        units = ' markerUnits="%s"' % ('userSpaceOnUse' if c['user'] else 'strokeWidth') if c['units_attr'] else ''
+        par_s = ' preserveAspectRatio="%s"' % par(dict(align=c['align'], slice=c['slice'])) if c['has_par'] else ''
+        vb_s = ' viewBox="%s"' % ' '.join(fs(v) for v in c['vb']) if c['vb'] else ''
+        ov_s = ' overflow="%s"' % c['overflow'] if c['overflow'] else ''
+        docs.append('<svg %s width="600" height="600"><marker id="m"%s%s%s%s%s%s%s%s>%s</marker>'
+                    '<path d="M 48 64 L 200 64" stroke="black" stroke-width="%s" marker-start="url(#m)"/></svg>'
+                    % (NS, units, vp_attr('refX', c['refx']), vp_attr('refY', c['refy']), vp_attr('markerWidth', c['mw']),
+                       vp_attr('markerHeight', c['mh']), vb_s, par_s, ov_s, PROBE, fs(c['sw'])))
+    outs = ctx.rvh_batch(binp, 'dump', ["-\t" + d for d in docs])
+    items, idx = [], []
+    for i, (c, d, o) in enumerate(zip(cases, docs, outs)):
+        try:
+            tree = json.loads(o)
+        except (TypeError, ValueError):
+            tree = {'error': 'unparsable harness output'}
+        if 'root' not in tree:
+            ctx.violation("marker document failed to parse or crashed: %s" % str(tree)[:200], dict(doc=d, result=tree))
+            continue
+        found = []
+
+        def visit(n):
+            if n.get('t') == 'g':
+                for ch in n.get('children', []):
+                    if ch.get('t') == 'path' and ch.get('fill') and ch['fill']['paint'].get('rgb') == [1, 2, 3]:
+                        cl = None
+                        if n.get('clip'):
+                            cc = n['clip']['root'].get('children', [])
+                            cl = cc[0]['bbox'] if cc and cc[0].get('bbox') else None
+                        found.append((n['abs_ts'], cl))
+        walk(tree['root'], visit)
+        if not found:
+            ctx.violation("marker instance missing from the tree", dict(doc=d, case=str(c)))
+            continue
+        ots, oc = found[0]
+        asp = ("{| ar_align := %s; ar_slice := %s |}" % (COQ_ALIGN[c['align']], 'true' if c['slice'] else 'false')
+               if c['has_par'] else "{| ar_align := XMidYMid; ar_slice := false |}")
+        vb = ("(Some {| vb_rect := {| rx := %s; ry := %s; rw := %s; rh := %s |}; vb_aspect := %s |})"
+              % (tuple(qstr(v) for v in c['vb']) + (asp,))) if c['vb'] else 'None'
+        node = "{| mk_ref_x := %s; mk_ref_y := %s; mk_width := %s; mk_height := %s |}" % tuple(vp_coq_len(c[k]) for k in ('refx', 'refy', 'mw', 'mh'))
+        items.append("(%s, %s, %s, %s, %s, %s, %s)" % (node, 'true' if c['user'] else 'false', qstr(c['sw']), vb,
+                                                       '(Some "%s"%%string)' % c['overflow'] if c['overflow'] else 'None', coq_ts(ots),
+                                                       'None' if oc is None else "(Some {| rx := %s; ry := %s; rw := %s; rh := %s |})" % tuple(qstr(v) for v in oc)))
+        idx.append((i, ots, oc))
+        ctx.note_case("marker/" + d, nontrivial=oc is not None)
+    ctx.cov['marker_viewport_cases'] = len(items)
+    if not items:
+        return
+    ctx.add_sample(dict(op='marker-viewport', doc=docs[idx[0][0]]))
+    cases_s = ("Definition cases : list (mnode * bool * Q * option viewbox * option string * ts * option qrect) := [\n%s\n].\n"
+               "Eval vm_compute in (bad_indices chk cases).\n" % ";\n".join(items))
+    base = ['Model.Base', 'Model.GeomPrims', 'Model.Corr', 'Gen.Units', 'Model.SvgSize', 'Gen.PctAxis', 'Model.ViewportPrims', 'Gen.LeafViewBox']
+    rc, out = ctx.coq_eval('s_marker_viewport', MK_COQ_PRELUDE + MK_COQ_CHK_SPEC + cases_s, base)
+    sbad = ctx.parse_N_list(out) if rc == 0 else None
+    if sbad is None:
+        ctx.log("marker-viewport spec evaluation failed:\n" + out[-1500:])
+    for b in (sbad or [])[:3]:
+        i, ots, oc = idx[b]
+        ctx.violation("marker instance does not follow the marker viewport rule (translate(vertex) . scale(viewBox mapping onto markerWidth x "
+                      "markerHeight x stroke width) . translate(-ref); clip unless overflow is visible/auto)",
+                      dict(doc=docs[i], impl_instance_transform=ots, impl_clip_rect=oc, case=str(cases[i]),
+                           replay="rvh dump with this doc; abs transform of the group holding the probe and its clip path rectangle"))
+    rc, out = ctx.coq_eval('k_marker_viewport', MK_COQ_PRELUDE + MK_COQ_CHK_MODEL + cases_s, base + ['Gen.LeafMarker'])
+    badl = ctx.parse_N_list(out) if rc == 0 else None
+    if badl is None:
+        ctx.log("marker-viewport model evaluation failed:\n" + out[-1500:])
+        if not ctx.cov.get('marker_tie_broken') and not sbad:
+            ctx.violation("marker-viewport: the source-derived model (Gen/LeafMarker.v) could not be evaluated", dict(log_tail=out[-1500:]),
+                          found_input=False)
+        return
+    for b in badl[:3]:
+        i, ots, oc = idx[b]
+        ctx.violation("source-derived marker viewport (marker.rs) and implementation disagree on the instance transform or clip rectangle",
+                      dict(doc=docs[i], impl_instance_transform=ots, impl_clip_rect=oc, case=str(cases[i])))
+
+
 def run(ctx):
     rng = ctx.rng
     quick = ctx.tier == 'quick'
@@ -766,6 +898,8 @@ def run(ctx):
     viewport_clip_corr(ctx, binp, rng, quick)
     ctx.cov['image_tie_broken'] = bool([b for b in broken if b['name'] == 'image.placement'])
     image_box_corr(ctx, cases, docs, outs)
+    ctx.cov['marker_tie_broken'] = bool([b for b in broken if b['name'] == 'marker.viewport'])
+    marker_viewport_corr(ctx, binp, rng, quick)
 
     # ------------------------------------------------------------------ model-level search when a proof broke
     if not proof_ok:
